@@ -30,7 +30,7 @@ from vf.props.common import harness_error, inconclusive, proved, violation
 ID = "C20"
 LEVEL = "fault_enumeration"
 ITEM_BUDGET_S = {"quick": 300, "thorough": 900}
-QT = {"quick": 10000, "thorough": 60000}
+QT = {"quick": 10000, "thorough": 30000}
 _TIER = "quick"
 EXCS = ["ValueError", "FloatingPointError", "MemoryError", "KeyboardInterrupt"]
 METHODS = ["auto", "SLSQP", "trust-constr", "L-BFGS-B", "highs"]
